@@ -136,6 +136,14 @@ class LeaseCheckingCrawler(ShareCrawler):
         # the keys individually
         for k in so_far:
             self.state["cycle-to-date"].setdefault(k, so_far[k])
+        # the state file holds the JSON-safe list form of the histogram (see
+        # get_state / convert_lease_age_histogram): turn it back into the
+        # (minage,maxage)->count dict that process_share() updates
+        lah = self.state["cycle-to-date"]["lease-age-histogram"]
+        if isinstance(lah, list):
+            self.state["cycle-to-date"]["lease-age-histogram"] = {
+                (minage, maxage): count for (minage, maxage, count) in lah
+            }
 
     def create_empty_cycle_dict(self):
         recovered = self.create_empty_recovered_dict()
